@@ -16,8 +16,8 @@ from .ref import model as M
 # ---------------------------------------------------------------------------------------------------
 # version patterns with (old, new) state pairs
 
-D1 = {"year": 2021, "month": 3, "dom": 7, "week_w": 9, "year_g": 2021, "week_v": 9}
-D2 = {"year": 2022, "month": 11, "dom": 24, "week_w": 47, "year_g": 2022, "week_v": 47}
+D1 = M.cal_from_date(__import__("datetime").date(2021, 3, 7))
+D2 = M.cal_from_date(__import__("datetime").date(2022, 11, 24))
 
 
 def _st(pat, d, **kw):
